@@ -13,7 +13,11 @@ import (
 )
 
 func (core *JApiCore) buildCatalog() *jerr.JApiError {
-	if len(core.directivesWithPastes) != 0 && core.directivesWithPastes[0].Type() != directive.Jsight {
+	if len(core.directivesWithPastes) == 0 {
+		// Nothing but MACRO definitions (or nothing at all): the JSIGHT directive is missing as well.
+		return core.japiError(jerr.DirectiveJSIGHTShouldBeTheFirst, 0)
+	}
+	if core.directivesWithPastes[0].Type() != directive.Jsight {
 		return core.directivesWithPastes[0].KeywordError(jerr.DirectiveJSIGHTShouldBeTheFirst)
 	}
 
